@@ -47,6 +47,28 @@ pub fn spaces(tier: &str) -> Vec<CSpace> {
     v.push(CSpace { name: "names-parent".into(), gen: Box::new(move |ctx| crate::names::gen_parent(ctx, 2)), bound: if quick { Some(5) } else { None } });
     v.push(CSpace { name: "allow-unknown".into(), gen: Box::new(|ctx| crate::names::gen_allow_unknown(ctx)), bound: if quick { Some(5) } else { None } });
     v.push(CSpace { name: "faulty".into(), gen: Box::new(|ctx| crate::names::gen_faulty(ctx)), bound: if quick { Some(3) } else { None } });
+    // the semantic flattening / enum generators of C02, C03 as hosts (ghost-only nested structs, positional paths,
+    // nested parameterised parents, variant-level instructions) - added after seeds C19-02, C07-02
+    v.push(CSpace {
+        name: "sem-flat".into(),
+        gen: Box::new(|ctx| crate::sem_flat::gen_child(ctx, &crate::sem_flat::FlatOpts { max_members: 3, max_ghosts: 2, max_depth: 2, positional: false }).map(|c| FCase { item: c.item("S", true), tags: c.tags.clone() })),
+        bound: if quick { Some(5) } else { Some(7) },
+    });
+    v.push(CSpace {
+        name: "sem-flat-pos".into(),
+        gen: Box::new(|ctx| crate::sem_flat::gen_child(ctx, &crate::sem_flat::FlatOpts { max_members: 3, max_ghosts: 2, max_depth: 2, positional: true }).map(|c| FCase { item: c.item("S", true), tags: c.tags.clone() })),
+        bound: if quick { Some(4) } else { Some(6) },
+    });
+    v.push(CSpace {
+        name: "sem-parent".into(),
+        gen: Box::new(|ctx| crate::sem_flat::gen_parent(ctx, 3).map(|c| FCase { item: c.item("S", true), tags: c.tags.clone() })),
+        bound: if quick { Some(4) } else { Some(6) },
+    });
+    v.push(CSpace {
+        name: "sem-enum".into(),
+        gen: Box::new(|ctx| crate::sem_enum::gen(ctx, &crate::sem_enum::EOpts { max_variants: 2, max_fields: 2, full_menu: true }).map(|c| FCase { item: c.item("S", None), tags: c.tags.clone() })),
+        bound: if quick { Some(4) } else { Some(6) },
+    });
     v.push(CSpace { name: "feat-enum-prim".into(), gen: Box::new(|ctx| gen_enum_prim(ctx, &FOpts { max_members: 3, two_counterparts: false, force_two: false, full_menu: true, params: false })), bound: None });
     v
 }
